@@ -75,6 +75,33 @@ def spellings(base, target_url, frag):
     return out
 
 
+_SUB = ("items", "additionalItems", "additionalProperties", "not", "if", "then", "else", "contains",
+        "propertyNames", "extends")
+_SUBLIST = ("allOf", "anyOf", "oneOf", "items", "extends", "type", "disallow")
+_SUBMAP = ("properties", "patternProperties", "definitions", "dependencies")
+
+
+def add_titles(schema, counter=None):
+    """A copy in which every subSCHEMA object (never a map of names, never a value) carries a "title"."""
+    counter = counter if counter is not None else [0]
+    if not isinstance(schema, dict):
+        return schema
+    out = {}
+    for k, v in schema.items():
+        if k in _SUB and isinstance(v, dict):
+            out[k] = add_titles(v, counter)
+        elif k in _SUBLIST and isinstance(v, list):
+            out[k] = [add_titles(x, counter) for x in v]
+        elif k in _SUBMAP and isinstance(v, dict):
+            out[k] = dict((n, add_titles(x, counter)) for n, x in v.items())
+        else:
+            out[k] = v
+    if "$ref" not in out or len(out) > 1:
+        counter[0] += 1
+        out.setdefault("title", "t%d" % counter[0])
+    return out
+
+
 class Knobs(dict):
     __getattr__ = dict.__getitem__
 
@@ -104,6 +131,7 @@ def default_knobs(rng, **over):
         deep_instance=False,
         tricky_names=rng.random() < 0.2,
         touchy_instances=rng.random() < 0.1,
+        odd_ids=rng.random() < 0.12,
     )
     k.update(over)
     return k
@@ -285,6 +313,15 @@ class WorldGen(object):
         home = self.homes[j]
         url = self.root_url if home == "root" else home
         sp = spellings(base, url, "/definitions/" + ptr_token(self.names[j]))
+        if base and base.startswith("sim://") and url and self.rng.random() < 0.35:
+            # what users write inside a document of a scheme that urllib.parse.urljoin does not treat as
+            # hierarchical: a same-document pointer or a sibling's file name.  urljoin hands such a reference back
+            # UNJOINED, so today it is looked up as it stands (and usually is unresolvable) - deterministically,
+            # whatever other validators of the process have done
+            tok = "#/definitions/" + ptr_token(self.names[j])
+            naive = tok if url == base else posixpath.basename(urlsplit(url).path) + tok
+            self.reflog.append([naive, url])
+            return {"$ref": naive}
         if not sp:
             return None
         r = self.rng.choice(sp)
@@ -361,6 +398,8 @@ class WorldGen(object):
                 return r
         if self.formats and depth > 0 and rng.random() < 0.12:
             return self.motif_pin_then_fail(base, index)
+        if self.triggers and self.draft != "draft3" and rng.random() < 0.2:
+            return self.motif_fail_then_raise()
         if depth <= 0 or p < k.ref_rate + 0.2:
             return self.leaf()
         s = self.applicator(base, index, depth, consumed)
@@ -381,6 +420,10 @@ class WorldGen(object):
             nid = self.nested_id(base)
             s[self.idkw] = nid
             base = urljoin(base, nid)
+        elif self.k.get("odd_ids") and rng.random() < 0.2:
+            # an id that is truthy but cannot be joined to a base (somebody forgot a `properties` level, or
+            # mistyped a URL): entering this subschema raises out of validation - and must leave no trace
+            s[self.idkw] = rng.choice([12, ["x"], {"type": "integer"}, "http://[oops", True, 1.5])
         if rng.random() < 0.35:
             # assertion keywords *before* the applicators of the same schema object: keyword order is
             # evaluation order, and what an earlier keyword left behind matters to the later ones
@@ -460,6 +503,26 @@ class WorldGen(object):
             elif kind == "x-also":
                 s["x-also"] = self.schema(base, index, d, consumed)
         return s
+
+    def motif_fail_then_raise(self):
+        """anyOf / oneOf whose EARLIER branches have already failed (or matched) when a LATER branch dies in a user
+        collaborator (undeclared exception on a trigger value): whatever the keyword had collected so far is
+        abandoned mid-way."""
+        rng = self.rng
+        raising = []
+        if "format" in self.triggers:
+            raising.append({"format": rng.choice(self.formats["names"])})
+        if "type" in self.triggers:
+            raising.append({"type": rng.choice(self.custom["types"])})
+        if "kw" in self.triggers:
+            raising.append({"x-marker": rng.choice(["int", "str"])})
+        r = rng.choice(raising)
+        failing = [{"type": "null"}, {"enum": []}, {"type": "object", "required": ["nope"]} if self.draft != "draft3"
+                   else {"type": "null"}, {"maxLength": 0, "maximum": -100}]
+        if rng.random() < 0.6:
+            return {"anyOf": rng.sample(failing, rng.randint(1, 2)) + [r] + ([{}] if rng.random() < 0.3 else [])}
+        return {"oneOf": rng.choice([[{}, {"type": ["string", "integer", "number"]}, r],
+                                     rng.sample(failing, 1) + [{}, r], rng.sample(failing, 2) + [r]])}
 
     def motif_pin_then_fail(self, base, index):
         """A shape that history bugs like: inside ONE schema object, an earlier keyword swallows a format
@@ -638,6 +701,12 @@ class WorldGen(object):
         if "$ref" in schema:
             t = self._target(schema["$ref"], docs, root)
             return self.directed(t, docs, root, depth - 1) if t is not None else rng.choice(ZOO)
+        for comb in ("anyOf", "oneOf"):
+            if self.triggers and isinstance(schema.get(comb), list):
+                tvs = [self._trigger_value(b) for b in schema[comb][1:] if isinstance(b, dict)]
+                tvs = [x for x in tvs if x is not None]
+                if tvs and rng.random() < 0.5:
+                    return tvs[0]       # a LATER branch dies in a user collaborator after the earlier ones were tried
         for comb in ("allOf", "anyOf", "oneOf", "extends"):
             if isinstance(schema.get(comb), list) and schema[comb] and rng.random() < 0.6:
                 return self.directed(rng.choice(schema[comb]), docs, root, depth)
@@ -682,6 +751,10 @@ class WorldGen(object):
             return [self.directed(sub, docs, root, depth - 1) if isinstance(sub, dict) else rng.choice(ZOO)
                     for _ in range(rng.randint(1, 3))]
         # leaf: satisfy or violate
+        if self.triggers and rng.random() < 0.3:
+            tv = self._trigger_value(schema)
+            if tv is not None:
+                return tv
         t = schema.get("type")
         if isinstance(t, list):
             t = rng.choice([x for x in t if isinstance(x, str)] or [None])
@@ -695,6 +768,20 @@ class WorldGen(object):
         if t in by_type and rng.random() < 0.75:
             return rng.choice(by_type[t])
         return rng.choice(ZOO)
+
+    def _trigger_value(self, schema):
+        """The value that makes a user collaborator consulted at this (leaf) schema die with an undeclared exception."""
+        if not self.triggers:
+            return None
+        if "format" in schema and "format" in self.triggers:
+            return self.triggers["format"]["value"]
+        if "x-marker" in schema and "kw" in self.triggers:
+            return self.triggers["kw"]["value"]
+        t = schema.get("type")
+        if "type" in self.triggers and (t in ("even", "nonempty") or (
+                isinstance(t, list) and any(x in ("even", "nonempty") for x in t if isinstance(x, str)))):
+            return self.triggers["type"]["value"]
+        return None
 
     def twin(self, v):
         rng = self.rng
